@@ -235,7 +235,7 @@ def r3(R):
 
 
 @rule('C12.R4', 'the savepoint store is closed on every commit path and on '
-      'abort', min_instances=2)
+      'abort', props=['C13'], min_instances=2)
 def r4(R):
     conn = R.prog.cls(CONN)
     for meth, all_exits in (('_commit_savepoint', True),
